@@ -1115,6 +1115,7 @@ size_t ZSTD_decompressMultiFrame(ZSTD_DCtx* dctx,
     int moreThan1Frame = 0;
 
     DEBUGLOG(5, "ZSTD_decompressMultiFrame");
+    dctx->streamStage = zdss_init;   /* a single call starts a new job : a streaming frame in progress (or in error) is abandoned, as documented */
     assert(dict==NULL || ddict==NULL);  /* either dict or ddict set, not both */
 
     if (ddict) {
